@@ -22,10 +22,14 @@ func C16Write(r *eng.Run) {
 	rseed := int64(r.T.U32(sim.LMisc))
 	r.Note("C16 write %s history: %v", cfg, ops)
 
+	// How the destination fails: for good or only once, with a plain error
+	// or with a net.Error that calls itself a timeout and temporary.
+	failOnce, netErr := r.T.Bool(sim.LFault), r.T.Chance(sim.LFault, 1, 3)
 	exec := func(failAt, failN int) *WRun {
 		rand.Seed(rseed)
 		p := NewPipe(r, nil)
 		p.WFailAt, p.WFailN = failAt, failN
+		p.FailOnce, p.NetErr = failOnce, netErr
 		wr := &WRun{Cfg: cfg, Ops: ops, Pipe: p}
 		wr.W = NewW(cfg, p)
 		wr.MS = applyOptions(wr.W, cfg)
